@@ -367,6 +367,7 @@ type BlockObs struct {
 	OK     bool    `json:"ok"`
 	Ledger []Entry `json:"ledger"`
 	Panic  string  `json:"panic,omitempty"`
+	Err    string  `json:"-"` // first error text: used for the input-distribution buckets only, never compared
 }
 
 func etxOf(e *types.ExternalTx) Etx {
@@ -447,6 +448,7 @@ func runProc(db ethdb.Database, s *Scenario, ctxs []*builtCtx, txs [][]*builtTx)
 			}()
 			if err != nil {
 				bo.OK = false
+				bo.Err = err.Error()
 				break
 			}
 			first = false
